@@ -327,6 +327,93 @@ func runContinuousMonitor(cs cfgSpec) (out outcome) {
 	return
 }
 
+// runContinuousLostAnswer: the primary's own backup loop again; an upload is executed by the service but its
+// answer is lost (connection reset after the service stored the file), and the primary commits once more
+// before the loop has looked at the service again. The service's chain is a prefix of the primary's log and
+// can simply be extended: the primary must keep its transactions and the service must reach its position.
+func runContinuousLostAnswer(cs cfgSpec) (out outcome) {
+	dir := core.Scratch("c14-lostanswer")
+	defer os.RemoveAll(dir)
+	w := &world{cfg: cs.config(), dir: dir, lin: map[uint64]uint64{}, cks: map[int]uint64{}, wasOn: true}
+	w.be = newBackend(cs.Backend, dir)
+	defer w.be.Close()
+	defer finish(w, &out)
+	var err error
+	started := make(chan struct{})
+	w.node, err = sim.OpenNode(sim.NodeOpts{Dir: filepath.Join(dir, "data"), Primary: true, Compress: w.cfg.Compress,
+		Configure: func(s *litefs.Store) {
+			w.wc = &wrapClient{inner: w.be.Client(s)}
+			s.BackupClient = gatedBackup{w.wc, started}
+			s.BackupDelay = 20 * time.Millisecond
+			s.BackupFullSyncInterval = 0
+			s.Retention = time.Hour
+		}})
+	if err != nil {
+		core.Infra("open node: %v", err)
+	}
+	defer w.node.Close()
+	w.conn = w.node.Connect(dbName, 7)
+	defer w.conn.Close()
+	w.pg = sim.NewPager(w.conn, w.cfg.Layout, w.cfg.Pager)
+	for v := 1; v <= 3; v++ {
+		if err := w.commit(v); err != nil {
+			core.Infra("commit %d: %v", v, err)
+		}
+	}
+	close(started)
+	waitSvc := func(txid uint64, d time.Duration) bool {
+		deadline := time.Now().Add(d)
+		for time.Now().Before(deadline) {
+			if p := posOf(w.be.Files(dbName)); uint64(p.TXID) == txid && p == w.db().Pos() {
+				return true
+			}
+			time.Sleep(5 * time.Millisecond)
+		}
+		return false
+	}
+	if !waitSvc(3, 8*time.Second) {
+		w.nonconf = append(w.nonconf, "continuous lost answer: the service did not reach transaction 3 in 8 s")
+		return
+	}
+	// the next upload is executed, its answer is lost; right after it the primary commits again
+	var cerr error
+	w.wc.mu.Lock()
+	w.wc.inject = "errAfter"
+	w.wc.mu.Unlock()
+	if err := w.commit(4); err != nil {
+		core.Infra("commit 4: %v", err)
+	}
+	deadline := time.Now().Add(5 * time.Second)
+	for time.Now().Before(deadline) {
+		w.wc.mu.Lock()
+		pending := w.wc.inject != ""
+		w.wc.mu.Unlock()
+		if !pending {
+			break
+		}
+		time.Sleep(time.Millisecond)
+	}
+	cerr = w.commit(5)
+	out.Nontrivial = true
+	w.evals += 2
+	if cerr != nil {
+		w.nonconf = append(w.nonconf, "continuous lost answer: commit 5 failed: "+cerr.Error())
+		return
+	}
+	ok := waitSvc(5, 15*time.Second)
+	o := w.observe()
+	if o.Pos.TXID != 5 {
+		w.failf("C14.idle-syncs-converge", "continuous-lost-answer/primary-moved", map[string]any{"primary": o.Pos.String(), "service": o.spos().String(),
+			"what": "after an upload whose answer was lost the primary gave up committed transactions although the service held a prefix of its log", "calls": callShape(w.wc.take())})
+		return
+	}
+	if !ok {
+		w.failf("C14.idle-syncs-converge", "continuous-lost-answer/service-behind-an-idle-primary", map[string]any{"primary": o.Pos.String(), "service": o.spos().String(),
+			"service_files": names(o.Svc), "bound": "15s with a 20 ms backup delay", "calls": callShape(w.wc.take())})
+	}
+	return
+}
+
 // gatedBackup keeps the store's backup loop away from the service until the scenario is set up.
 type gatedBackup struct {
 	*wrapClient
